@@ -785,7 +785,14 @@ def oracle_gauss(case, ia):
     # order-preserving assignment of returned tracks to source tracks
     j = 0
     for r in st:
-        while j < len(orig) and not (r["md"] == orig[j]["md"] and r["t"] and orig[j]["t"][0] <= min(r["t"]) and max(r["t"]) <= orig[j]["t"][-1]):
+        def fits(o):
+            ok = r["md"] == o["md"] and r["t"] and o["t"][0] <= min(r["t"]) and max(r["t"]) <= o["t"][-1]
+            if ok and case["strategy"] == "skip" and not case["missing"]:
+                # a skipped-away source track must not capture a later track's result (soak seed 20)
+                ok = set(r["t"]) <= set(o["t"])
+            return ok
+
+        while j < len(orig) and not fits(orig[j]):
             j += 1
         if j == len(orig):
             return f"span: Gaussian-refined track with lines {r['t'][:12]} and minimum duration {r['md']!r}: no remaining source track has that minimum duration and spans these lines"
